@@ -220,6 +220,7 @@ pub struct World {
 #[derive(Default, Clone, Debug)]
 pub struct Counters {
     pub sized_inbound: u64,
+    pub disconnects_with_options: u64,
     pub packets_arriving_with_connack: u64,
     pub oversize_refusals_expected: u64,
     pub disconnects_ending_in_empty_value: u64,
@@ -453,7 +454,29 @@ impl World {
                 OpSpec::Unsubscribe(sp)
             }
             Kind::Ping => OpSpec::Ping,
-            Kind::Disc => OpSpec::Disconnect(DiscSpec::default()),
+            Kind::Disc => {
+                // the user's DISCONNECT rotates through its options (kept plain where a Maximum Packet Size could refuse it)
+                let mut d = DiscSpec::default();
+                if self.max_packet.is_none() {
+                    match idx % 4 {
+                        1 => {
+                            d.reason = Some(0x04);
+                            d.reason_string = Some(format!("bye {idx}"));
+                        }
+                        2 => {
+                            d.reason = Some(0x00);
+                            d.user_props = vec![("dk".to_string(), format!("dv{idx}"))];
+                        }
+                        3 => {
+                            d.reason = Some(0x80);
+                            d.reason_string = Some(format!("{idx} {}", "\u{e9}".repeat(70)));
+                            d.user_props = vec![("dk".to_string(), String::new()), (String::new(), "x".to_string())];
+                        }
+                        _ => {}
+                    }
+                }
+                OpSpec::Disconnect(d)
+            }
             Kind::PubBig => OpSpec::Publish(PubSpec::simple(1, &format!("o/{idx}"), &Self::big_payload(idx))),
         }
     }
@@ -1559,10 +1582,20 @@ impl World {
                         None => self.viol(P_C01, "C01/unattributable-packet/PINGREQ".into(), "PINGREQ nobody asked for".into()),
                     }
                 }
-                CPacket::Disconnect(_) => {
+                CPacket::Disconnect(ref d) => {
                     let cand = self.m.iter().position(|o| o.kind == Kind::Disc && o.submitted && o.req_wire.is_none() && !o.prev_conn_done);
                     match cand {
                         Some(i) => {
+                            if let OpSpec::Disconnect(spec) = self.spec_for(Kind::Disc, i) {
+                                if let crate::checks::c01::Expect::Packet(want) = crate::checks::c01::expect_disconnect(&spec) {
+                                    if let Some((field, why)) = crate::checks::c01::diff(&want, &CPacket::Disconnect(d.clone())) {
+                                        self.viol(&["C01", "C13"], format!("C01/value-mismatch/pkt=DISCONNECT/field={field}"), format!("op{i}: the DISCONNECT written differs from the caller's options: {why}"));
+                                    }
+                                    if spec.reason.is_some() {
+                                        self.counters.disconnects_with_options += 1;
+                                    }
+                                }
+                            }
                             self.m[i].req_wire = Some(wi);
                             self.note_order(i);
                             if self.disc_wire_idx.is_none() {
